@@ -586,6 +586,7 @@ class GCodeCore(object):
 
         move, params, comment = self._process_move_params(point, **kwargs)
         target_axes = self._current_axes.replace(*move)
+        self._validate_target(target_axes)
 
         with self.absolute_mode():
             statement, params = self._prepare_rapid(move, params, comment)
@@ -614,6 +615,7 @@ class GCodeCore(object):
 
         move, params, comment = self._process_move_params(point, **kwargs)
         target_axes = self._current_axes.replace(*move)
+        self._validate_target(target_axes)
 
         with self.absolute_mode():
             statement, params = self._prepare_move(move, params, comment)
@@ -861,6 +863,16 @@ class GCodeCore(object):
         move = point.combine(origin, target, move)
 
         return move, target_axes
+
+    def _validate_target(self, target_axes: Point) -> None:
+        """Check the absolute target of a move that bypasses transforms.
+
+        Called before the move is prepared, so that subclasses can
+        reject a target before any state is modified.
+
+        Args:
+            target_axes: Absolute target position of the move
+        """
 
     def _update_axes(self, axes: Point, params: ParamsDict) -> None:
         """Update the internal state after a movement.
